@@ -125,7 +125,7 @@ CHECKS = {
                      "(exact winding + point-segment distance, exact region boundary for polyominoes) with a 2-grid-unit band "
                      "and the join-dependent reach; metamorphic: the decompositions of one region classify every decidable "
                      "sample identically under use_union.",
-                note="Trusted: geomkit. Domain conditions (DESIGN 4 C13): miter limit >= 2; polygons without sub-grid spikes; "
+                note="Trusted: geomkit. Domain conditions (DESIGN 4 C13 and 0.2): |d| >= 2 rounding-grid units; miter limit >= 2; polygons without sub-grid spikes; "
                      "use_union=false with d<0 only for polygons farther apart than 2|d|; round joins judged with Clipper's "
                      "rounded arc step count (apothem of a 1.5-step chord).",
                 technique="property-based testing (Hypothesis) with a signed-distance oracle and a metamorphic decomposition relation"),
